@@ -1,3 +1,391 @@
 package main
 
-func runH2(casesPath, tracePath string, from, nrand int) {}
+import (
+	"bytes"
+	"encoding/hex"
+	"encoding/json"
+	"fmt"
+	"math/rand"
+	"os"
+
+	mh2 "mosn.io/mosn/pkg/module/http2"
+	"mosn.io/mosn/pkg/module/http2/hpack"
+	"mosn.io/pkg/buffer"
+	"verif/vh"
+)
+
+type h2shape struct {
+	T      int  `json:"t"`
+	Sid    int  `json:"sid"`
+	P      int  `json:"P"`
+	L      int  `json:"L"`
+	Pad    int  `json:"pad"`
+	Padded bool `json:"padded"`
+	Prio   bool `json:"prio"`
+	EndH   bool `json:"endh"`
+	Ack    bool `json:"ack"`
+}
+
+type h2rep struct {
+	Name string `json:"name"`
+	Hex  string `json:"hex"`
+}
+
+type h2case struct {
+	Kind   string          `json:"kind"`
+	N      int             `json:"n"`
+	Expect string          `json:"expect"`
+	Used   int             `json:"used"`
+	Frames json.RawMessage `json:"frames"`
+	Reps   json.RawMessage `json:"reps"`
+}
+
+// the two 40-byte header block pieces the specification counts with (BlockLen): A opens a request, B continues it
+func blockA() []byte {
+	var b bytes.Buffer
+	b.Write([]byte{0x82, 0x86, 0x84})
+	b.Write([]byte{0x41, 0x08})
+	b.WriteString("c08.test")
+	b.Write([]byte{0x40, 0x04})
+	b.WriteString("x-id")
+	b.WriteByte(0x05)
+	b.WriteString("v0001")
+	b.Write([]byte{0x00, 0x05})
+	b.WriteString("x-pad")
+	b.WriteByte(0x07)
+	b.WriteString("0123456")
+	return b.Bytes()
+}
+
+func blockB() []byte {
+	var b bytes.Buffer
+	for _, kv := range [][2]string{{"x-c-1", "abcdefgh"}, {"x-c-2", "ijklmnop"}, {"xy", "abc"}} {
+		b.WriteByte(0x00)
+		b.WriteByte(byte(len(kv[0])))
+		b.WriteString(kv[0])
+		b.WriteByte(byte(len(kv[1])))
+		b.WriteString(kv[1])
+	}
+	return b.Bytes()
+}
+
+func wireOf(s h2shape) []byte {
+	var flags byte
+	if s.Padded {
+		flags |= 0x8
+	}
+	if s.Prio && s.T == 1 {
+		flags |= 0x20
+	}
+	if s.EndH {
+		flags |= 0x4
+	}
+	if s.Ack {
+		flags |= 0x1
+	}
+	payload := []byte{}
+	switch s.T {
+	case 0: // DATA
+		if s.Padded {
+			payload = append(payload, byte(s.Pad))
+		}
+		payload = append(payload, []byte("datadata")...)
+	case 1: // HEADERS
+		if s.Padded {
+			payload = append(payload, byte(s.Pad))
+		}
+		if s.Prio {
+			payload = append(payload, 0, 0, 0, 0, 16)
+		}
+		payload = append(payload, blockA()...)
+	case 2:
+		payload = []byte{0, 0, 0, 0, 16}
+	case 3:
+		payload = []byte{0, 0, 0, 8}
+	case 4:
+		if !s.Ack {
+			payload = []byte{0, 3, 0, 0, 0, 100}
+		}
+	case 6:
+		payload = []byte("pingping")
+	case 7:
+		payload = []byte{0, 0, 0, 1, 0, 0, 0, 0}
+	case 8:
+		payload = []byte{0, 0, 0, 1}
+	case 9:
+		payload = blockB()
+	default:
+		payload = []byte("?????")
+	}
+	if len(payload) != s.P {
+		vh.Must(fmt.Errorf("frame type %d: the driver's payload has %d bytes, the specification says %d", s.T, len(payload), s.P), "h2 shape")
+	}
+	hdr := []byte{byte(s.L >> 16), byte(s.L >> 8), byte(s.L), byte(s.T), flags, 0, 0, 0, byte(s.Sid)}
+	return append(hdr, payload...)
+}
+
+type h2run struct {
+	Tail     string `json:"tail"`
+	Out      string `json:"out"`
+	Used     int    `json:"used"`
+	Consumed int    `json:"consumed"`
+	Alloc    uint64 `json:"alloc"`
+	fp       string
+}
+
+func readFrameOnce(data []byte, tail string) h2run {
+	sc := mh2.NewServerConn(nil)
+	iob := buffer.NewIoBufferBytes(data)
+	before := iob.Len()
+	r := h2run{Tail: tail}
+	var f mh2.Frame
+	var size int
+	var err error
+	st, alloc := guarded(func() { f, size, err = sc.Framer.ReadFrame(bg, iob, 0) })
+	r.Alloc = alloc
+	if st == "loop" {
+		r.Out = "loop"
+		return r
+	}
+	r.Consumed = before - iob.Len()
+	switch {
+	case st == "panic":
+		r.Out = "panic"
+	case err == mh2.ErrAGAIN:
+		r.Out = "again"
+	case err != nil:
+		r.Out = "error"
+	default:
+		r.Out = "frame"
+		r.Used = size
+		r.fp = fmt.Sprintf("%T", f)
+		if mf, ok := f.(*mh2.MetaHeadersFrame); ok {
+			for _, hf := range mf.Fields {
+				r.fp += "|" + hf.Name + "=" + hf.Value
+			}
+		}
+		if df, ok := f.(*mh2.DataFrame); ok {
+			r.fp += "|" + hex.EncodeToString(df.Data())
+		}
+	}
+	return r
+}
+
+func hpackOnce(data []byte, tail string) h2run {
+	r := h2run{Tail: tail}
+	n := 0
+	d := hpack.NewDecoder(4096, func(f hpack.HeaderField) { n++; r.fp += "|" + f.Name + "=" + f.Value })
+	d.SetMaxStringLength(1 << 20)
+	var err error
+	st, alloc := guarded(func() {
+		_, err = d.Write(data)
+		if err == nil {
+			err = d.Close()
+		}
+	})
+	r.Alloc = alloc
+	switch {
+	case st != "":
+		r.Out = st
+	case err != nil:
+		r.Out = "error"
+		r.fp = ""
+	default:
+		r.Out = "ok"
+	}
+	return r
+}
+
+func sameH2(rs []h2run) bool {
+	for _, r := range rs[1:] {
+		if r.Out != rs[0].Out || r.Used != rs[0].Used || r.Consumed != rs[0].Consumed || r.fp != rs[0].fp {
+			return false
+		}
+	}
+	return true
+}
+
+func runH2(casesPath, tracePath string, from, nrand int) {
+	if len(blockA()) != 40 || len(blockB()) != 40 {
+		vh.Must(fmt.Errorf("header block pieces have %d and %d bytes", len(blockA()), len(blockB())), "h2 blocks")
+	}
+	tr := vh.NewTrace(tracePath)
+	idx, ncalls := 0, 0
+	looped := false
+	vh.Must(vh.ReadCases(casesPath, func(raw json.RawMessage) error {
+		if looped {
+			return nil
+		}
+		idx++
+		if idx <= from {
+			return nil
+		}
+		var c h2case
+		if err := json.Unmarshal(raw, &c); err != nil {
+			return err
+		}
+		var stream []byte
+		ev := vh.Ev{"case": idx, "n": c.N}
+		var call func([]byte, string) h2run
+		if c.Kind == "frame" {
+			var fs []h2shape
+			if err := json.Unmarshal(c.Frames, &fs); err != nil {
+				return err
+			}
+			for _, s := range fs {
+				stream = append(stream, wireOf(s)...)
+			}
+			ev["ev"] = "h2"
+			ev["frames"] = fs
+			call = readFrameOnce
+		} else {
+			var rs []h2rep
+			if err := json.Unmarshal(c.Reps, &rs); err != nil {
+				return err
+			}
+			names := []string{}
+			for _, r := range rs {
+				b, err := hex.DecodeString(r.Hex)
+				if err != nil {
+					return err
+				}
+				stream = append(stream, b...)
+				names = append(names, r.Name)
+			}
+			ev["ev"] = "hpack"
+			ev["reps"] = names
+			call = hpackOnce
+		}
+		if c.N > len(stream) {
+			return fmt.Errorf("case %d supplies %d of %d bytes", idx, c.N, len(stream))
+		}
+		runs := []h2run{}
+		for _, t := range tails {
+			r := call(memoryBehind(stream, c.N, t), t)
+			ncalls++
+			runs = append(runs, r)
+			if r.Out == "loop" {
+				looped = true
+				break
+			}
+		}
+		ev["runs"] = runs
+		ev["tailsame"] = looped || sameH2(runs)
+		ev["input"] = clipHex(stream[:c.N], 64)
+		tr.Emit(ev)
+		return nil
+	}), "h2 cases")
+	if looped {
+		tr.Close()
+		fmt.Printf("LOOP at case %d\n", idx)
+		os.Exit(exitLoop)
+	}
+	runRandH2(tr, nrand)
+	tr.Close()
+	fmt.Printf("h2 cases=%d calls=%d events=%d\n", idx, ncalls, tr.Len())
+}
+
+// runRandH2: random corruptions of valid frame sequences and random HPACK blocks; summary events.
+func runRandH2(tr *vh.Trace, nrand int) {
+	rng := rand.New(rand.NewSource(vh.Seed()*104729 + 8))
+	valid := func() []byte {
+		k := rng.Intn(3)
+		fs := []h2shape{{T: 1, Sid: 1, P: 40, L: 40, EndH: k == 0}}
+		for i := 1; i <= k; i++ {
+			fs = append(fs, h2shape{T: 9, Sid: 1, P: 40, L: 40, EndH: i == k})
+		}
+		if rng.Intn(3) == 0 {
+			fs = []h2shape{{T: []int{0, 2, 3, 4, 6, 7, 8}[rng.Intn(7)], Sid: rng.Intn(2)}}
+			fs[0].P = map[int]int{0: 8, 2: 5, 3: 4, 4: 6, 6: 8, 7: 8, 8: 4}[fs[0].T]
+			fs[0].L = fs[0].P
+		}
+		var b []byte
+		for _, s := range fs {
+			b = append(b, wireOf(s)...)
+		}
+		return b
+	}
+	const batch = 500
+	for _, target := range []string{"frame", "hpack"} {
+		for done := 0; done < nrand; done += batch {
+			cnt := map[string]int{"frame": 0, "again": 0, "error": 0, "ok": 0, "panic": 0, "loop": 0}
+			over, againCons, tailDiff, overAlloc := 0, 0, 0, 0
+			bad := []string{}
+			note := func(kind string, in []byte) {
+				if len(bad) < 4 {
+					bad = append(bad, kind+":"+clipHex(in, 96))
+				}
+			}
+			for k := 0; k < batch && done+k < nrand; k++ {
+				var in []byte
+				if target == "frame" {
+					in = valid()
+				} else {
+					in = append(append([]byte{}, blockA()...), blockB()...)
+				}
+				if rng.Intn(5) == 0 {
+					in = make([]byte, rng.Intn(80))
+					rng.Read(in)
+				} else {
+					for j := 1 + rng.Intn(3); j > 0; j-- {
+						p := rng.Intn(len(in))
+						if target == "frame" && rng.Intn(2) == 0 {
+							p = rng.Intn(9)
+						}
+						switch rng.Intn(3) {
+						case 0:
+							in[p] = byte(rng.Intn(256))
+						case 1:
+							in[p] ^= 1 << uint(rng.Intn(8))
+						default:
+							in[p] = []byte{0, 1, 0x7f, 0x80, 0xff}[rng.Intn(5)]
+						}
+					}
+					if rng.Intn(3) == 0 {
+						in = in[:rng.Intn(len(in)+1)]
+					}
+				}
+				stream := append(append([]byte{}, in...), valid()...)
+				n := len(in)
+				runs := []h2run{}
+				for _, t := range []string{"tight", "cont", "ones"} {
+					var r h2run
+					if target == "frame" {
+						r = readFrameOnce(memoryBehind(stream, n, t), t)
+					} else {
+						r = hpackOnce(memoryBehind(stream, n, t), t)
+					}
+					runs = append(runs, r)
+					cnt[r.Out]++
+					if r.Out == "loop" {
+						tr.Emit(vh.Ev{"ev": "randh2", "target": target, "count": k + 1, "outs": cnt, "over": over, "againcons": againCons,
+							"taildiff": tailDiff, "overalloc": overAlloc, "bad": append(bad, "loop:"+clipHex(in, 96))})
+						tr.Close()
+						os.Exit(0)
+					}
+					if r.Out == "panic" {
+						note("panic", in)
+					}
+					if r.Consumed > n || r.Used > n {
+						over++
+						note("consumed-more-than-received", in)
+					}
+					if r.Out == "again" && r.Consumed != 0 {
+						againCons++
+						note("again-consumed", in)
+					}
+					if r.Alloc > uint64(1<<20+64*n) {
+						overAlloc++
+						note("alloc", in)
+					}
+				}
+				if !sameH2(runs) {
+					tailDiff++
+					note("tail", in)
+				}
+			}
+			tr.Emit(vh.Ev{"ev": "randh2", "target": target, "count": batch, "outs": cnt, "over": over, "againcons": againCons,
+				"taildiff": tailDiff, "overalloc": overAlloc, "bad": bad})
+		}
+	}
+}
